@@ -115,6 +115,43 @@ def rand_policy(rng, ssrc=None, ssrc_type=SSRC_SPECIFIC, valid=True, mki=None, s
                cryptex=cryptex, enc_xtn=enc_xtn, use_key_field=use_key_field, valid=valid)
 
 
+def strat_policy(rng, k, **kw):
+    """rand_policy, stratified by k: every run of ten consecutive k visits each class of policy whose buffer / tag / service
+    handling has a code path of its own in srtp.c, whatever the seed (a purely random dozen left some of them out for some
+    seeds: seeded changes C12-a/b, C16-a/b slipped through a regression for that reason).  Returns (policy, ext_p) where ext_p
+    is the share of RTP packets that should carry a header extension."""
+    klass = k % 10
+    if klass == 7 and "mki" not in kw:
+        kw["mki"] = True
+    p = rand_policy(rng, **kw)
+    aead = p.rtp[0] in (GCM128, GCM256)
+    ext_p = 0.5
+    if klass == 1:
+        p.rtp = p.rtp[:5] + (0,); p.rtcp = p.rtcp[:5] + (rng.choice([0, 2]),)       # no service at all: pure copies
+    elif klass == 2:
+        p.rtp = p.rtp[:5] + (2,); p.rtcp = p.rtcp[:5] + (2,)                         # authentication only
+    elif klass == 3 and not aead:
+        p.rtp = p.rtp[:3] + (20, 10, rng.choice([1, 0]))                             # tag length configured, auth service not requested
+    elif klass == 4:
+        p.cryptex, p.enc_xtn, ext_p = True, b"", 0.9                                   # cryptex alone
+    elif klass == 5:
+        p.cryptex, ext_p = False, 0.9                                                  # RFC 6904 alone
+        p.enc_xtn = p.enc_xtn or bytes(rng.sample(range(1, 15), 2))
+    elif klass == 6 and not aead and p.rtp[0] != NULL_CIPHER:
+        # NULL auth with a non-zero tag length and the auth service on: the tag is the keystream prefix
+        p.rtp = p.rtp[:2] + (NULL_AUTH, 0, rng.choice([4, 10, 16]), 3)
+        if p.rtcp[0] != NULL_CIPHER:
+            p.rtcp = p.rtcp[:2] + (NULL_AUTH, 0, rng.choice([4, 10, 16]), 3)
+    elif klass == 8 and not aead:
+        # a real cipher without the confidentiality service (UNENCRYPTED_SRTCP / auth-only SRTP with AES keys)
+        if p.rtp[0] == NULL_CIPHER: p.rtp = (ICM128, 30) + p.rtp[2:]
+        if p.rtcp[0] == NULL_CIPHER: p.rtcp = (ICM128, 30) + p.rtcp[2:]
+        p.rtp = p.rtp[:2] + (HMAC, 20, 10, rng.choice([2, 3])); p.rtcp = p.rtcp[:2] + (HMAC, 20, 10, 2)
+        klen = max(p.rtp[1], p.rtcp[1])
+        p.keys = [((k0 + rand_key(rng, 46))[:max(klen, len(k0))], m) for (k0, m) in p.keys]
+    return p, ext_p
+
+
 def bswap32(x):
     return int.from_bytes((x & 0xffffffff).to_bytes(4, "big"), "little")
 
